@@ -23,7 +23,112 @@ def _const_bool_assigns(body, local, lenient=False):
     return out
 
 
-def dominating_facts(body, x, depth=0, _cache=None):
+def _switch_facts(body, s, reaching, depth, _cache):
+    """facts established by leaving switch block s through one of the edges `reaching`"""
+    facts = set()
+    t = body.blocks[s]["term"]
+    src = paths.switch_source(body, t)
+    if src is None:
+        return facts
+    if src[0] == "discr":
+        vals = paths.discr_values(t, src[1])
+        names = set()
+        for lab in reaching:
+            v = vals.get(lab)
+            if v is None:
+                continue
+            if v.startswith("OTHER:"):
+                names |= set(v[6:].split("|"))
+            else:
+                names.add(v)
+        subj = flow.resolve_place(body, src[1]["ops"][0])
+        facts.add(("enum", src[1]["enum"], frozenset(names), subj))
+        # a stored decision (`let kind = classify(..); match kind { .. }` with a private enum): the value is one of `names`, so it was
+        # built at one of the constructions of those variants - what holds at all of them holds here
+        if depth < 3 and subj is not None and not subj[1] and _is_plain_enum(src[1]["enum"]):
+            contrib = _enum_def_sites(body, subj[0], names)
+            if contrib:
+                inter = None
+                for bi in contrib:
+                    f = set(dominating_facts(body, bi, depth + 1, _cache))
+                    inter = f if inter is None else (inter & f)
+                facts |= (inter or set())
+    elif src[0] == "call":
+        vals = paths.bool_values(t, src[2])
+        vs = {vals.get(lab) for lab in reaching}
+        if len(vs) == 1 and None not in vs:
+            facts.add(("call", callee_def(src[1]), vs.pop(), src[3]))
+    elif src[0] == "bin":
+        vals = paths.bool_values(t, src[2])
+        vs = {vals.get(lab) for lab in reaching}
+        if len(vs) == 1 and None not in vs:
+            facts.add(("cmp", src[1]["op"], vs.pop(), src[3]))
+    elif src[0] in ("local", "rv") and depth < 3:
+        # a stored boolean (`let is_x = matches!(..)` / `if matches!(..)`): facts of the blocks that set it to that value
+        d = t["discr"]
+        if "p" not in d or (d["p"]["proj"] and src[0] != "local"):
+            return facts
+        l = d["p"]["l"]
+        if src[0] == "local":
+            # switch_source already looked through copies and negations: src[1] is the stored boolean, src[2] its polarity
+            l = src[1]
+        else:
+            # follow plain copies
+            for _ in range(4):
+                df = flow.single_def(body, l)
+                if df and df["kind"] == "assign" and df["rv"]["k"] == "use" and "p" in df["rv"]["ops"][0] and not df["rv"]["ops"][0]["p"]["proj"]:
+                    l = df["rv"]["ops"][0]["p"]["l"]
+                else:
+                    break
+        vals = paths.bool_values(t, src[2] if src[0] == "local" else True)
+        vs = {vals.get(lab) for lab in reaching}
+        if len(vs) != 1 or None in vs:
+            return facts
+        want = vs.pop()
+        # the boolean is defined by constant assignments and/or by predicate calls: the edge value `want` can only come from a constant
+        # assignment of that value or from a call that returned it
+        contrib = []
+        okdefs = True
+        stack = [(l, 0)]
+        seen_l = set()
+        while stack and okdefs:
+            l2, dep = stack.pop()
+            if l2 in seen_l:
+                continue
+            seen_l.add(l2)
+            for df in body.defs().get(l2, []):
+                if df["kind"] == "mutarg" or df.get("proj"):
+                    okdefs = False
+                    break
+                if df["kind"] == "assign":
+                    rv = df["rv"]
+                    o0 = rv["ops"][0] if rv.get("ops") else None
+                    if rv["k"] == "use" and isinstance(o0, dict) and o0.get("c") == "int" and o0.get("ty") == "bool":
+                        if (o0["v"] == "1") == want:
+                            contrib.append((df["bi"], None))
+                    elif rv["k"] == "use" and isinstance(o0, dict) and "p" in o0 and not o0["p"]["proj"] and dep < 4:
+                        stack.append((o0["p"]["l"], dep + 1))      # a plain copy (e.g. the return value of an inlined helper)
+                    else:
+                        okdefs = False
+                        break
+                elif df["kind"] == "call":
+                    contrib.append((df["bi"], ("call", callee_def(df["term"]), want, df["bi"])))
+                else:
+                    okdefs = False
+                    break
+        if not okdefs or not contrib:
+            return facts
+        inter = None
+        for bi, own in contrib:
+            f = set(dominating_facts(body, bi, depth + 1, _cache))
+            if own is not None:
+                f.add(own)
+            inter = f if inter is None else (inter & f)
+        facts |= (inter or set())
+    return facts
+
+
+def _dominating_only(body, x, depth=0, _cache=None):
     """set of atoms that hold whenever control reaches block x:
       ('enum', enum type, frozenset(variant names), subject) - the tested enum value is one of the variants
       ('call', callee def, bool value, call block)            - the predicate call returned that value
@@ -31,10 +136,10 @@ def dominating_facts(body, x, depth=0, _cache=None):
     """
     if _cache is None:
         _cache = {}
-    if (x, depth) in _cache:
-        return _cache[(x, depth)]
+    if ("dom", x, depth) in _cache:
+        return _cache[("dom", x, depth)]
     facts = set()
-    _cache[(x, depth)] = facts
+    _cache[("dom", x, depth)] = facts
     for s in body.live_blocks():
         t = body.blocks[s]["term"]
         if t["k"] != "switch" or s == x:
@@ -46,95 +151,79 @@ def dominating_facts(body, x, depth=0, _cache=None):
         live_labels = [lab for lab, tb in edges if not (body.blocks[tb]["term"]["k"] == "unreachable" and not body.blocks[tb]["stmts"])]
         if not reaching or set(reaching) >= set(live_labels):
             continue
-        src = paths.switch_source(body, t)
-        if src is None:
-            continue
-        if src[0] == "discr":
-            vals = paths.discr_values(t, src[1])
-            names = set()
-            for lab in reaching:
-                v = vals.get(lab)
-                if v is None:
-                    continue
-                if v.startswith("OTHER:"):
-                    names |= set(v[6:].split("|"))
-                else:
-                    names.add(v)
-            subj = flow.resolve_place(body, src[1]["ops"][0])
-            facts.add(("enum", src[1]["enum"], frozenset(names), subj))
-        elif src[0] == "call":
-            vals = paths.bool_values(t, src[2])
-            vs = {vals.get(lab) for lab in reaching}
-            if len(vs) == 1 and None not in vs:
-                facts.add(("call", callee_def(src[1]), vs.pop(), src[3]))
-        elif src[0] == "bin":
-            vals = paths.bool_values(t, src[2])
-            vs = {vals.get(lab) for lab in reaching}
-            if len(vs) == 1 and None not in vs:
-                facts.add(("cmp", src[1]["op"], vs.pop(), src[3]))
-        elif src[0] in ("local", "rv") and depth < 3:
-            # a stored boolean (`let is_x = matches!(..)` / `if matches!(..)`): facts of the blocks that set it to that value
-            d = t["discr"]
-            if "p" not in d or d["p"]["proj"]:
-                continue
-            l = d["p"]["l"]
-            if src[0] == "local":
-                # switch_source already looked through copies and negations: src[1] is the stored boolean, src[2] its polarity
-                l = src[1]
-            else:
-                # follow plain copies
-                for _ in range(4):
-                    df = flow.single_def(body, l)
-                    if df and df["kind"] == "assign" and df["rv"]["k"] == "use" and "p" in df["rv"]["ops"][0] and not df["rv"]["ops"][0]["p"]["proj"]:
-                        l = df["rv"]["ops"][0]["p"]["l"]
-                    else:
-                        break
-            vals = paths.bool_values(t, src[2] if src[0] == "local" else True)
-            vs = {vals.get(lab) for lab in reaching}
-            if len(vs) != 1 or None in vs:
-                continue
-            want = vs.pop()
-            # the boolean is defined by constant assignments and/or by predicate calls: the edge value `want` can only come from a constant
-            # assignment of that value or from a call that returned it
-            contrib = []
-            okdefs = True
-            stack = [(l, 0)]
-            seen_l = set()
-            while stack and okdefs:
-                l2, dep = stack.pop()
-                if l2 in seen_l:
-                    continue
-                seen_l.add(l2)
-                for df in body.defs().get(l2, []):
-                    if df["kind"] == "mutarg" or df.get("proj"):
-                        okdefs = False
-                        break
-                    if df["kind"] == "assign":
-                        rv = df["rv"]
-                        o0 = rv["ops"][0] if rv.get("ops") else None
-                        if rv["k"] == "use" and isinstance(o0, dict) and o0.get("c") == "int" and o0.get("ty") == "bool":
-                            if (o0["v"] == "1") == want:
-                                contrib.append((df["bi"], None))
-                        elif rv["k"] == "use" and isinstance(o0, dict) and "p" in o0 and not o0["p"]["proj"] and dep < 4:
-                            stack.append((o0["p"]["l"], dep + 1))      # a plain copy (e.g. the return value of an inlined helper)
-                        else:
-                            okdefs = False
-                            break
-                    elif df["kind"] == "call":
-                        contrib.append((df["bi"], ("call", callee_def(df["term"]), want, df["bi"])))
-                    else:
-                        okdefs = False
-                        break
-            if not okdefs or not contrib:
-                continue
-            inter = None
-            for bi, own in contrib:
-                f = set(dominating_facts(body, bi, depth + 1, _cache))
-                if own is not None:
-                    f.add(own)
-                inter = f if inter is None else (inter & f)
-            facts |= (inter or set())
+        facts |= _switch_facts(body, s, reaching, depth, _cache)
     return facts
+
+
+def dominating_facts(body, x, depth=0, _cache=None):
+    """facts of the dominating tests, plus - where several branches merge (`(a, true) | (b, true) => ..`, or-patterns, early exits that
+    rejoin) - what holds on every incoming edge"""
+    if _cache is None:
+        _cache = {}
+    if (x, depth) in _cache:
+        return _cache[(x, depth)]
+    facts = set(_dominating_only(body, x, depth, _cache))
+    _cache[(x, depth)] = facts          # provisional (cuts cycles)
+    be = _back_edges(body)
+    preds = [(p, lab) for p, lab in body.preds().get(x, []) if (p, lab) not in be and not body.blocks[p]["cleanup"]]
+    if len(preds) >= 2 and depth < 3 and len(preds) <= 8:
+        inter = None
+        for p, lab in preds:
+            f = set(dominating_facts(body, p, depth, _cache))
+            if body.blocks[p]["term"]["k"] == "switch":
+                f |= _switch_facts(body, p, [lab], depth, _cache)
+            inter = f if inter is None else (inter & f)
+            if not inter:
+                break
+        facts |= (inter or set())
+    _cache[(x, depth)] = facts
+    return facts
+
+
+_BE = {}
+
+
+def _back_edges(body):
+    k = id(body)
+    if k not in _BE:
+        if len(_BE) > 64:
+            _BE.clear()
+        _BE[k] = frozenset(flow.back_edges(body))
+    return _BE[k]
+
+
+def _is_plain_enum(ty):
+    return ty.startswith(("s3s::", "s3s_fs::", "s3s_policy::", "s3s_aws::")) and "<" not in ty.split("::")[-1]
+
+
+def _enum_def_sites(body, l, names):
+    """blocks that construct the enum value held in local l with one of the variants `names`; None when some definition is not a
+    construction (or a copy of one)"""
+    out = []
+    stack = [(l, 0)]
+    seen = set()
+    while stack:
+        l2, dep = stack.pop()
+        if l2 in seen:
+            continue
+        seen.add(l2)
+        ds = body.defs().get(l2, [])
+        if not ds or (1 <= l2 <= body.argc):
+            return None
+        for df in ds:
+            if df["kind"] == "mutarg" or df.get("proj"):
+                return None
+            if df["kind"] != "assign":
+                return None
+            rv = df["rv"]
+            if rv["k"] == "agg" and rv.get("agg") == "adt" and rv.get("variant") is not None:
+                if rv["variant"] in names:
+                    out.append(df["bi"])
+            elif rv["k"] == "use" and isinstance(rv["ops"][0], dict) and "p" in rv["ops"][0] and not rv["ops"][0]["p"]["proj"] and dep < 5:
+                stack.append((rv["ops"][0]["p"]["l"], dep + 1))
+            else:
+                return None
+    return out
 
 
 def enum_fact(facts, enum_suffix):
